@@ -154,7 +154,9 @@ def gen_history(rng):
             steps.append({"op": "external_add", "oids": add})
         else:
             req = [o for o in uni.all_oids() if rng.random() < 0.6] or trees[:1]
-            steps.append({"op": "status", "req": req, "shallow": rng.random() < 0.5, "handle": rng.randrange(2)})
+            # the listings are read from a local cache that holds everything, or - the default, and what push does - from the
+            # queried store itself (where the listing of a directory that has vanished cannot be read any more)
+            steps.append({"op": "status", "req": req, "shallow": rng.random() < 0.5, "handle": rng.randrange(2), "own_cache": rng.random() < 0.4})
     if rng.random() < 0.3:
         # a history around one directory: an early query through one handle, a push through the other, the directory
         # vanishes from the remote, a query through the first handle again
@@ -165,7 +167,8 @@ def gen_history(rng):
             {"op": "status", "req": closed, "shallow": rng.random() < 0.5, "handle": a},
             {"op": "transfer", "req": closed, "shallow": True, "fail": [], "handle": 1 - a},
             {"op": "delete", "dirs": [t], "files": [f for f in uni.listing(t) if rng.random() < 0.5], "keep_closed": False},
-            {"op": "status", "req": closed, "shallow": rng.random() < 0.5, "handle": a},
+            {"op": "status", "req": closed, "shallow": rng.random() < 0.5, "handle": a, "own_cache": rng.random() < 0.5},
+            {"op": "status", "req": [f for f in uni.listing(t)][:2], "shallow": True, "handle": a, "own_cache": True},
         ]
     return {
         "files": {k: v.decode() for k, v in uni.files.items()},
@@ -238,8 +241,11 @@ def check_history(ctx, h, uni):
                     if fo in present and not (st["keep_closed"] and fo in listed):
                         _rm(dest.path, fo)
             else:
-                kind, res = safe_call(lambda: status(dest, [stores.hi(o) for o in st["req"]], index=idx, cache_odb=src, shallow=st["shallow"]),
+                kind, res = safe_call(lambda: status(dest, [stores.hi(o) for o in st["req"]], index=idx,
+                                                     cache_odb=None if st.get("own_cache") else src, shallow=st["shallow"]),
                                       expected=(FileNotFoundError,))
+                if st.get("own_cache"):
+                    ctx.count("step:status reading listings from the queried store itself")
                 now = set(stores.listing_of(dest.path))
                 if kind == "ok":
                     obs = {"exists": stores.vals(res.exists), "missing": stores.vals(res.missing), "index": stores.index_dump(idx)}
@@ -247,13 +253,18 @@ def check_history(ctx, h, uni):
                         ctx.oracle(o not in now, case, {"why": "an object that is in the store at query time is reported as missing",
                                                         "step": n, "id": o})
                     for o in obs["exists"]:
+                        # nothing is vouched for by the index alone: what is reported existing is in the store or is listed
+                        # by a directory object that is in the store at query time
+                        ctx.oracle(o in now or any(d in now and o in uni.listing(d) for d in uni.trees), case,
+                                   {"why": "an identifier is reported as existing although it is neither in the store nor listed by a "
+                                           "directory object that is in the store", "step": n, "id": o, "store": sorted(now)})
                         if o.endswith(".dir"):
                             ctx.oracle(o in now, case, {"why": "a directory object is reported as existing but is not in the store at query time",
                                                         "step": n, "dir": o, "store": sorted(now)})
                 else:
                     obs = {"err": res}
-                reqs.append({"op": "status", "L": L, "store": sorted(now), "cache": uni.all_oids(), "req": st["req"], "shallow": st["shallow"],
-                             "index": idx_before})
+                reqs.append({"op": "status", "L": L, "store": sorted(now), "cache": sorted(before) if st.get("own_cache") else uni.all_oids(),
+                             "req": st["req"], "shallow": st["shallow"], "index": idx_before})
                 work.append((n, "status", obs))
             now = set(stores.listing_of(dest.path))
             ever |= now
@@ -263,7 +274,7 @@ def check_history(ctx, h, uni):
                 ok = x in ever or any(d in ever and x in uni.listing(d) for d in uni.trees)
                 ctx.oracle(ok, case, {"why": "the remote index holds an identifier that was never delivered nor listed by a delivered directory",
                                       "step": n, "id": x, "ever_in_store": sorted(ever)})
-            if st["op"] == "status" and st["req"]:
+            if st["op"] == "status" and st["req"] and kind == "ok":
                 # the index is validated (and cleared when stale) by every query, whether or not it names a directory
                 for d in dump["dirs"]:
                     ctx.oracle(d in now, case, {"why": "after a status query the index still holds a directory that is not in the store",
